@@ -35,7 +35,7 @@ pub mod encoding {
     use super::*;
     use super::n6::*;
     use super::vlemmas::*;
-    //@ include u1_encoding.tpl M=ext FUNC=false TSI=//~tag-set~contents~are~not~used~in~this~unit TSR=//~tag-set~contents~are~not~used~in~this~unit
+    //@ include u1_encoding.tpl M=ext FUNC=false TSI=ensures~final(self)@~==~old(self)@.insert(t),~r~==~!old(self)@.contains(t), TSR=ensures~final(self)@~==~old(self)@.remove(*t),~r~==~old(self)@.contains(*t),
 }
 /// the crate name under which the expansions refer to all of the above
 pub mod zvt_builder { pub use crate::*; }
